@@ -81,6 +81,35 @@ func geConstr(r *Rng, n int, clausesOnly bool) ref.Lin {
 		}
 	}
 	c.Rhs = r.Range(lo+1, max(hi, lo+1))
+	if r.Chance(1, 12) { // slack: satisfied by every assignment
+		c.Rhs = lo - r.Intn(2)
+	}
+	return c
+}
+
+// SlackConstr returns a constraint over the given fresh variables that every assignment satisfies
+// (cardinality "at least 0", or PB with a degree not above the sum of its negative coefficients).
+func SlackConstr(r *Rng, vars []int) ref.Lin {
+	lits := make([]int, len(vars))
+	for i, v := range vars {
+		lits[i] = v
+		if r.Bool() {
+			lits[i] = -v
+		}
+	}
+	if r.Chance(1, 3) {
+		return ref.Lin{Lits: lits, Rel: ref.GE, Rhs: -r.Intn(2)}
+	}
+	c := ref.Lin{Lits: lits, Coefs: make([]int, len(lits)), Rel: ref.GE}
+	lo := 0
+	for i := range c.Coefs {
+		c.Coefs[i] = r.Range(1, 4)
+		if r.Chance(2, 3) {
+			c.Coefs[i] = -c.Coefs[i]
+			lo += c.Coefs[i]
+		}
+	}
+	c.Rhs = lo - r.Intn(2)
 	return c
 }
 
